@@ -382,3 +382,44 @@ func FromRef(d *adoc.Doc) (*Map, error) {
 	}
 	return m, nil
 }
+
+// LazyCursor is a view of a RefCursor tree that allocates a fresh cursor
+// value every time a node is reached (as a store backed by a database or a
+// memory-mapped file would): node identity is Pos(), never the Go value.
+type LazyCursor struct{ c *RefCursor }
+
+// LazyOf wraps a canonical R-ref cursor; other cursors are returned unchanged.
+func LazyOf(c store.Cursor) store.Cursor {
+	if rc, ok := c.(*RefCursor); ok {
+		return &LazyCursor{rc}
+	}
+	return c
+}
+
+// Canon returns the canonical cursor behind a lazy view (or c itself).
+func Canon(c store.Cursor) store.Cursor {
+	if lc, ok := c.(*LazyCursor); ok {
+		return lc.c
+	}
+	return c
+}
+
+func lazyList(in []*RefCursor) []store.Cursor {
+	out := make([]store.Cursor, len(in))
+	for i, x := range in {
+		out[i] = &LazyCursor{x}
+	}
+	return out
+}
+
+func (l *LazyCursor) Pos() int        { return l.c.pos }
+func (l *LazyCursor) Node() node.Node { return l.c.node }
+func (l *LazyCursor) Parent() store.Cursor {
+	if l.c.parent == nil {
+		return &LazyCursor{l.c}
+	}
+	return &LazyCursor{l.c.parent}
+}
+func (l *LazyCursor) Namespaces() []store.Cursor { return lazyList(l.c.ns) }
+func (l *LazyCursor) Attributes() []store.Cursor { return lazyList(l.c.attrs) }
+func (l *LazyCursor) Children() []store.Cursor   { return lazyList(l.c.children) }
